@@ -225,3 +225,147 @@ MUTANTS += [
       "            shares.extend([x.shnum for x in writers if x.server == server])",
       "            shares.extend([x.shnum for x in writers if x.server != server])", "C47.9"),
 ]
+
+STC = "src/allmydata/storage_client.py"
+HSV = "src/allmydata/storage/http_server.py"
+MUT = "src/allmydata/storage/mutable.py"
+
+_REG_ERR = "                d.addErrback(self._connection_problem, writer)\n"
+_OUTSTANDING = ("                def _no_longer_outstanding(res):\n                    self.num_outstanding -= 1\n"
+                "                    return res\n")
+
+MUTANTS += [
+    # ---- C47.3: closures between the writer Deferred and its handlers (seeded change C47-C: late-binding errback)
+    M("errback-closure-binds-writer-late", PUB,
+      _OUTSTANDING + "\n                d = writer.finish_publishing()\n                d.addBoth(_no_longer_outstanding)\n" + _REG_ERR,
+      _OUTSTANDING + "                def _write_failed(f):\n                    return self._connection_problem(f, writer)\n"
+      "\n                d = writer.finish_publishing()\n                d.addBoth(_no_longer_outstanding)\n"
+      "                d.addErrback(_write_failed)\n", "C47.3"),
+    M("errback-lambda-binds-writer-late", PUB, _REG_ERR,
+      "                d.addErrback(lambda f: self._connection_problem(f, writer))\n", "C47.3"),
+    M("answer-lambda-binds-writer-late", PUB,
+      "                d.addCallback(self._got_write_answer, writer, started)\n",
+      "                d.addCallback(lambda res: self._got_write_answer(res, writer, started))\n", "C47.3"),
+    M("errback-closure-skips-handler-for-some-failures", PUB, _REG_ERR,
+      "                def _write_failed(f, w):\n                    if f.check(IOError):\n"
+      "                        self._connection_problem(f, w)\n"
+      "                d.addErrback(_write_failed, writer)\n", "C47.3"),
+    M("errback-closure-default-bound-outside-loop", PUB,
+      "        for (shnum, writers) in list(self.writers.copy().items()):\n            for writer in writers:\n"
+      "                writer.put_verification_key(verification_key)\n",
+      "        writer = self._get_some_writer()\n        def _write_failed(f, w=writer):\n"
+      "            return self._connection_problem(f, w)\n"
+      "        for (shnum, writers) in list(self.writers.copy().items()):\n            for writer in writers:\n"
+      "                writer.put_verification_key(verification_key)\n", "C47.3",
+      edits=[(PUB, _REG_ERR, "                d.addErrback(_write_failed)\n")]),
+    M("benign-errback-closure-default-binds-writer", PUB, _REG_ERR,
+      "                def _write_failed(f, w=writer):\n                    return self._connection_problem(f, w)\n"
+      "                d.addErrback(_write_failed)\n", None),
+    M("benign-errback-closure-takes-writer-argument", PUB, _REG_ERR,
+      "                def _write_failed(f, w):\n                    self.log(\"write to %r failed\" % (w,))\n"
+      "                    return self._connection_problem(f, w)\n"
+      "                d.addErrback(_write_failed, writer)\n", None),
+    M("benign-errback-lambda-default-binds-writer", PUB, _REG_ERR,
+      "                d.addErrback(lambda f, w=writer: self._connection_problem(f, writer=w))\n", None),
+]
+
+HCL = "src/allmydata/storage/http_client.py"
+FSV = "src/allmydata/storage/server.py"
+
+_HTTP_TV = ("                TestVector(offset=offset, size=size, specimen=specimen)\n"
+            "                for (offset, size, specimen) in test_vector\n")
+_HTTP_TV_LIST = "            client_test_vectors = [\n" + _HTTP_TV + "            ]\n"
+_HTTP_RET = "        return (client_result.success, client_result.reads)\n"
+_CLIENT_RET = "            return ReadTestWriteResult(success=result[\"success\"], reads=result[\"data\"])\n"
+_FOOLSCAP_RET = ("        return self._rref.callRemote(\n            \"slot_testv_and_readv_and_writev\",\n"
+                 "            storage_index,\n            secrets,\n            wire_format_tw_vectors,\n            r_vector,\n        )\n")
+_FOOLSCAP_D = ("        d = self._rref.callRemote(\n            \"slot_testv_and_readv_and_writev\",\n"
+               "            storage_index,\n            secrets,\n            wire_format_tw_vectors,\n            r_vector,\n        )\n")
+
+MUTANTS += [
+    # ---- C47.9.16 (seeded change C47-D): the adapters forward the writer's test vectors as given
+    M("http-adapter-test-size-from-specimen", STC, _HTTP_TV,
+      "                TestVector(offset=offset, size=len(specimen), specimen=specimen)\n"
+      "                for (offset, _, specimen) in test_vector\n", "C47.9.16"),
+    M("http-adapter-test-size-clipped-in-loop", STC, _HTTP_TV_LIST,
+      "            client_test_vectors = []\n            for (offset, size, specimen) in test_vector:\n"
+      "                size = min(size, len(specimen))\n"
+      "                client_test_vectors.append(TestVector(offset=offset, size=size, specimen=specimen))\n", "C47.9.16"),
+    M("foolscap-adapter-drops-empty-slot-guard", STC,
+      "                [(start, length, b\"eq\", data) for (start, length, data) in value[0]],\n",
+      "                [(start, length, b\"eq\", data) for (start, length, data) in value[0] if data],\n", "C47.9.16"),
+    M("benign-http-adapter-test-vectors-by-loop", STC, _HTTP_TV_LIST,
+      "            client_test_vectors = []\n            for tv in test_vector:\n"
+      "                (where, how_many, expected) = tv\n"
+      "                client_test_vectors.append(TestVector(where, how_many, expected))\n", None),
+    # ---- C47.9.17: the wire hops
+    M("http-handler-test-size-from-specimen", HSV,
+      "                            (d[\"offset\"], d[\"size\"], b\"eq\", d[\"specimen\"])\n",
+      "                            (d[\"offset\"], len(d[\"specimen\"]), b\"eq\", d[\"specimen\"])\n", "C47.9.17"),
+    M("http-handler-tests-first-vector-only", HSV,
+      "                            for d in v[\"test\"]\n", "                            for d in v[\"test\"][:1]\n", "C47.9.17"),
+    M("foolscap-server-object-forgets-test-vectors", FSV,
+      "        return self._server.slot_testv_and_readv_and_writev(\n            storage_index,\n            secrets,\n"
+      "            test_and_write_vectors,\n",
+      "        return self._server.slot_testv_and_readv_and_writev(\n            storage_index,\n            secrets,\n"
+      "            {k: ([], v[1], v[2]) for (k, v) in test_and_write_vectors.items()},\n", "C47.9.17"),
+    M("benign-http-handler-element-through-local", HSV,
+      "                            (d[\"offset\"], d[\"size\"], b\"eq\", d[\"specimen\"])\n"
+      "                            for d in v[\"test\"]\n",
+      "                            (tv[\"offset\"], tv[\"size\"], b\"eq\", tv[\"specimen\"])\n"
+      "                            for tv in v[\"test\"]\n", None),
+    # ---- C47.9.18: what the server compares
+    M("server-test-reads-specimen-length", MUT,
+      "                data = self._read_share_data(f, offset, length)\n",
+      "                data = self._read_share_data(f, offset, len(specimen))\n", "C47.9.18"),
+    M("server-test-compare-prefix", MUT, "    return a == b\n", "    return a.startswith(b)\n", "C47.9.18"),
+    M("benign-server-test-continue-after-failure", MUT,
+      "                    test_good = False\n                    break\n",
+      "                    test_good = False\n                    continue\n", None),
+    # ---- C47.13.10 / C47.13.9: the write vectors and new_length travel unchanged as well
+    M("http-adapter-skips-empty-writes", STC,
+      "WriteVector(offset=offset, data=data) for (offset, data) in data_vector\n",
+      "WriteVector(offset=offset, data=data) for (offset, data) in data_vector if data\n", "C47.13.10"),
+    M("http-adapter-sends-first-write-only", STC,
+      "WriteVector(offset=offset, data=data) for (offset, data) in data_vector\n",
+      "WriteVector(offset=offset, data=data) for (offset, data) in data_vector[:1]\n", "C47.13.10"),
+    M("foolscap-adapter-write-vector-truncated", STC, "                value[1],\n                value[2],\n",
+      "                value[1][:1],\n                value[2],\n", "C47.13.10"),
+    M("http-handler-write-offsets-lost", HSV,
+      "[(d[\"offset\"], d[\"data\"]) for d in v[\"write\"]],", "[(0, d[\"data\"]) for d in v[\"write\"]],", "C47.13.9"),
+    M("http-handler-skips-empty-writes", HSV,
+      "[(d[\"offset\"], d[\"data\"]) for d in v[\"write\"]],", "[(d[\"offset\"], d[\"data\"]) for d in v[\"write\"] if d[\"data\"]],",
+      "C47.13.9"),
+    M("http-handler-always-answers-success", HSV, "{\"success\": success, \"data\": read_data}",
+      "{\"success\": True, \"data\": read_data}", ["C47.13.9", "C47.14"]),
+    M("benign-http-adapter-write-vectors-by-loop", STC,
+      "            client_write_vectors = [\n                WriteVector(offset=offset, data=data) for (offset, data) in data_vector\n"
+      "            ]\n",
+      "            client_write_vectors = []\n            for (where, what) in data_vector:\n"
+      "                client_write_vectors.append(WriteVector(offset=where, data=what))\n", None),
+    # ---- C47.14: the answer's way back
+    M("http-adapter-always-acknowledged", STC, _HTTP_RET, "        return (True, client_result.reads)\n", "C47.14"),
+    M("http-adapter-answer-swapped", STC, _HTTP_RET, "        return (client_result.reads, client_result.success)\n", "C47.14"),
+    M("http-adapter-verdict-is-nonempty-reads", STC, _HTTP_RET,
+      "        wrote = bool(client_result.reads)\n        return (wrote, client_result.reads)\n", "C47.14"),
+    M("http-client-verdict-from-status-code", HCL, _CLIENT_RET,
+      "            return ReadTestWriteResult(success=(response.code == http.OK), reads=result[\"data\"])\n", "C47.14"),
+    M("http-client-result-keys-swapped", HCL, _CLIENT_RET,
+      "            return ReadTestWriteResult(success=result[\"data\"], reads=result[\"success\"])\n", "C47.14"),
+    M("foolscap-adapter-answer-rewritten", STC, _FOOLSCAP_RET,
+      _FOOLSCAP_D + "        d.addCallback(lambda res: (True, res[1]))\n        return d\n", "C47.14"),
+    M("foolscap-adapter-fire-and-forget", STC, _FOOLSCAP_RET,
+      _FOOLSCAP_D + "        d.addErrback(log.err)\n        return defer.succeed((True, {}))\n", "C47.14"),
+    M("benign-http-adapter-answer-through-locals", STC, _HTTP_RET,
+      "        wrote = client_result.success\n        read_data = client_result.reads\n        answer = (wrote, read_data)\n"
+      "        return answer\n", None),
+    M("benign-http-client-result-positional", HCL, _CLIENT_RET,
+      "            verdict = result[\"success\"]\n            return ReadTestWriteResult(verdict, result[\"data\"])\n", None),
+    M("benign-http-result-fields-renamed", HCL, _CLIENT_RET,
+      "            return ReadTestWriteResult(wrote=result[\"success\"], reads=result[\"data\"])\n", None,
+      edits=[(HCL, "    success: bool\n    # Map share numbers to reads corresponding to the request's list of\n",
+              "    wrote: bool\n    # Map share numbers to reads corresponding to the request's list of\n"),
+             (STC, _HTTP_RET, "        return (client_result.wrote, client_result.reads)\n")]),
+    M("benign-foolscap-adapter-pass-through-callback", STC, _FOOLSCAP_RET,
+      _FOOLSCAP_D + "        def _answered(res):\n            return res\n        d.addCallback(_answered)\n        return d\n", None),
+]
